@@ -142,7 +142,9 @@ def showAt : Option (Nat × Nat) → String
   | none => "-"
   | some (a, b) => s!"{a}@{b}"
 
-def stateless (tr : String) : Bool := tr.startsWith "sl"
+/-- Every POST is served by a temporary session of its own: a stateless `StreamableHTTPHandler` (`sl`, `slj`) or a
+stateful one whose server hands out no session ids (`ServerOptions.GetSessionID` returns "": `sn`, `snj`). -/
+def stateless (tr : String) : Bool := tr.startsWith "sl" || tr.startsWith "sn"
 
 /-- What the model says about one message record: exactly one handler run unless the sending call failed. -/
 def modelMsgObs (toks : List String) (impl : String) : String :=
